@@ -940,3 +940,77 @@ def _field_ty(F, fn, fe):
                     if fl['name'] == fe[2]:
                         return fl['ty']
     return ''
+
+
+# --------------------------------------------------------------------------- COUNTER-WIDTH
+
+@rule('COUNTER-WIDTH', ['C06'], floor=3)
+def counter_width(ctx):
+    """A counter that a decoder advances once per input byte (or per unit of input) inside a loop that pulls from the
+    source is bounded only by the length of the input, which is the caller's, not the format's: it must be 64 bits
+    wide (u64 / usize / i64). A 32-bit counter overflows after 2^31 or 2^32 iterations: a panic in builds with overflow
+    checks on an input that is merely long (e.g. 2 GiB of legal XZ stream padding). Instances: every
+    `x = x + const` (checked add) on a named local in a loop of the reader files whose body calls into the source."""
+    from lzlint.core import op_const
+    F = ctx.facts
+    FILES = ('src/xz/reader.rs', 'src/xz.rs', 'src/lzip.rs', 'src/lzip/reader.rs', 'src/lzip/reader_mt.rs', 'src/lzma2_reader.rs',
+             'src/lzma_reader.rs', 'src/lzma2_reader_mt.rs')
+    PULL = ('read', 'read_exact', 'read_u8', 'read_byte', 'read_u32', 'read_u64', 'read_up_to', 'read_to_end')
+    n = 0
+    for f in F.fns:
+        if f.file not in FILES or f.kind == 'closure':
+            continue
+        loops = f.loops()
+        if not loops:
+            continue
+        for h, body in loops.items():
+            pulls = [bi for bi, t, c in f.calls() if bi in body and c.name in PULL]
+            if not pulls:
+                continue
+            for b in sorted(body):
+                for s in f.blocks[b]['stmts']:
+                    if s['k'] != 'assign' or s['rv']['r'] != 'bin' or s['rv']['op'] != 'AddWithOverflow':
+                        continue
+                    la, cb = op_local(s['rv']['a']), op_const(s['rv']['b'])
+                    if la is None or cb is None or not f.locals[la].get('name'):
+                        continue
+                    # the sum flows back into the same local (x += c)
+                    back = any(st['k'] == 'assign' and st['lhs']['l'] == la and not st['lhs']['p'] and st['rv']['r'] == 'use' and
+                               (op_place(st['rv']['o']) or {}).get('l') == s['lhs']['l']
+                               for b2 in body for st in f.blocks[b2]['stmts'])
+                    if not back:
+                        continue
+                    # bounded by a loop guard against a constant (e.g. `while pos < 6`)? then the width does not matter
+                    prov = Prov(f)
+                    bounded = False
+                    for sb in body:
+                        t = f.blocks[sb]['term']
+                        if t['k'] != 'switch':
+                            continue
+                        c = prov.operand(t['discr'], 0, '%d:T' % sb)
+                        nc = norm_cmp(c, True) if c[0] in ('bin', 'un') else None
+                        if nc and nc[0] in ('Lt', 'Le') and nc[1][0] == 'local' and nc[1][1] == la and nc[2][0] == 'const':
+                            bounded = True
+                        if nc and nc[0] in ('Lt', 'Le') and nc[2][0] == 'local' and nc[2][1] == la and nc[1][0] == 'const' and \
+                                any(w not in body for w in f.succs(sb)):
+                            bounded = True   # `if counter >= K { leave }`
+                    # a `for _ in a..b` loop with constant bounds runs a fixed number of rounds
+                    for cb_, ct, cc in f.calls():
+                        if cb_ in body and cc.name == 'next' and ct['args']:
+                            it = prov.operand(ct['args'][0], 0, '%d:T' % cb_)
+                            for x in expr_walk(it):
+                                if x[0] == 'agg' and str(x[1]).endswith('Range::Range') and len(x[2]) == 2 and all(y[0] == 'const' for y in x[2]):
+                                    bounded = True
+                    n += 1
+                    ty = f.locals[la]['ty']
+                    key = '%s:counter-%s' % (f.key, f.locals[la]['name'])
+                    if bounded:
+                        ctx.ok(key, f.loc(b), '`%s`: %s, bounded by a constant loop guard' % (f.locals[la]['name'], ty))
+                    elif ty in ('u64', 'usize', 'i64', 'u128'):
+                        ctx.ok(key, f.loc(b), '`%s`: %s' % (f.locals[la]['name'], ty))
+                    else:
+                        ctx.violation(key, f.loc(b), 'the counter `%s` (%s) is advanced in a loop that reads from the source and is bounded only by the '
+                                      'length of the input: it overflows after 2^%d rounds (panic with overflow checks)' %
+                                      (f.locals[la]['name'], ty, 31 if ty.startswith('i') else 32))
+    if not n:
+        ctx.anchor_missing('per-input counters in reader loops')
